@@ -9,7 +9,7 @@ import json, os, shutil, subprocess, sys
 from lib import vf
 
 MANIFEST = {
-  'text': "Coq theorems: the model of ExprParser.Parse accepts a token list iff the declarative stratified grammar (or > and > cmp > ! > postfix > primary, written as an inductive derivation relation) derives it, the tree is the unique one the derivation denotes, trees built without grouping tokens are stratified by precedence, a rejected list yields exactly one diagnostic located at one of its tokens or at the end marker, and the fuel the model supplies always suffices; the lexer model is sound and complete for a declarative token specification (identifiers, strings with '' as only escape, JSON-form numbers + 0x hex as implemented, operators, whitespace, }} terminator), token offsets are the byte index of the first character. Unbounded (all token lists / all strings). The models are tied to the code by running LexExpression and ExprParser.Parse on every string up to length 4/5 over the lexical alphabet, every sequence of up to 4/5 canonical lexemes, random sentences with random whitespace and their mutants, and comparing token kinds+positions, verdict, diagnostic class+position and the whole tree with the extracted model (and with vm_compute on a seeded subset). The property itself is evaluated on the implementation by a reference tokenizer+recogniser written from the grammar text.",
+  'text': "Coq theorems. Parser: the model of ExprParser.Parse accepts a token list iff the documented stratified grammar (or > and > comparison > ! > postfix > primary, an inductive derivation relation written from the grammar text) derives it, the tree is the unique one the derivation denotes, trees built without grouping tokens are stratified by precedence, a rejected list yields exactly one diagnostic located at one of its tokens or at the end marker, the fuel always suffices. Lexer: the model of ExprLexer is sound and complete for a declarative token specification (identifiers with - and _, strings with '' as only escape, JSON-form numbers + 0x hex as implemented, operators, whitespace, }} terminator), every token's offset is the byte index of its first character, whitespace between tokens only changes positions. Source level: text is accepted iff it tokenises into a sentence, otherwise exactly one diagnostic whose offset lies within the text; no fuel exhaustion, no panic; the parser with one token of look-ahead pulling from the lexer on demand (the code's structure, lexer error wins) is proved equal to the list-based model. Unbounded (all token lists / all strings). The models are tied to the code by running LexExpression and ExprParser.Parse on every string up to length 4/5 over a 28-symbol lexical alphabet, every sequence of up to 4/5 canonical lexemes, every ASCII character in 20 lexical contexts, random sentences with random whitespace and their mutants, and comparing token kinds+positions, verdict, diagnostic class+position and the whole tree with the extracted model (943 240 / 23.7 M inputs) and with vm_compute on a seeded subset. The property itself is evaluated on the implementation by a reference tokenizer+recogniser written from the grammar text (verdict and tree), by a position check of every diagnostic, and for a subset through Linter.Lint (exactly one expression diagnostic at the offending character inside the placeholder).",
   'note': "Trusted: Coq kernel; hand-written models (correspondence-checked, not proved equal to the Go code); harness generators, observable rendering, reference recogniser; OCaml extraction + driver glue (cross-checked against vm_compute on the seeded subset). strconv.ParseFloat is an oracle input, strconv.ParseInt(_,0,32) is modelled on lexer-valid literals. Inputs are valid UTF-8 without NUL/BOM (text/scanner's own error callbacks are outside the model). Known findings: number literals with leading zeros in exponent / hex digits and literals outside int32 / float64 are rejected although the documented number forms admit them.",
   'technique': "machine-checked proof in Coq (mutual induction over fuel and over derivations) + extracted-model / vm_compute correspondence against the Go implementation + reference-recogniser oracle",
  }
